@@ -202,25 +202,31 @@ theorem mapMR_append {α β} (f : α → R β) : ∀ (xs ys : List α) (xs' ys' 
         simp only [hx, hr] at h1; cases h1
         simp [mapMR, hx, mapMR_append f xs ys r ys' hr h2]
 
-theorem mapMR_patternToJ : ∀ (p : Pattern), mapMR patElem (patternToJ p) = .ok (patComps p)
+theorem mapMR_patternItemsToJ : ∀ (p : Pattern), mapMR patElem (patternItemsToJ p) = .ok (patItemComps p)
   | [] => rfl
   | c :: rest => by
-    simp only [patternToJ, patComps]
+    simp only [patternItemsToJ, patItemComps]
     apply mapMR_append
     · apply mapMR_append
       · cases c.wildcard <;> simp [mapMR, patElem]
       · split <;> simp [mapMR, patElem]
-    · exact mapMR_patternToJ rest
+    · exact mapMR_patternItemsToJ rest
 
-theorem patternToJ_isEmpty : ∀ (p : Pattern), p ≠ [] → (patternToJ p).isEmpty = false
-  | [], h => absurd rfl h
-  | c :: rest, _ => by
-    simp only [patternToJ]
+theorem mapMR_patternToJ (p : Pattern) : mapMR patElem (patternToJ p) = .ok (patComps p) := by
+  cases p with
+  | nil => simp [patternToJ, patComps, mapMR, patElem]
+  | cons c rest => simpa [patternToJ, patComps] using mapMR_patternItemsToJ (c :: rest)
+
+/-- `Pattern.MarshalJSON` never writes `[]` (which `Pattern.UnmarshalJSON` refuses) -/
+theorem patternToJ_isEmpty (p : Pattern) : (patternToJ p).isEmpty = false := by
+  cases p with
+  | nil => simp [patternToJ]
+  | cons c rest =>
+    simp only [patternToJ, List.isEmpty_cons, Bool.false_eq_true, if_false, patternItemsToJ]
     cases hw : c.wildcard <;> simp
 
-theorem patternOfJ_patternToJ (p : Pattern) (h : p.isEmpty = false) : patternOfJ (patternToJ p) = .ok (normPattern p) := by
-  have hne : p ≠ [] := by intro e; subst e; simp at h
-  have h1 := patternToJ_isEmpty p hne
+theorem patternOfJ_patternToJ (p : Pattern) : patternOfJ (patternToJ p) = .ok (normPattern p) := by
+  have h1 := patternToJ_isEmpty p
   have h2 := mapMR_patternToJ p
   simp only [patternOfJ, h1, Bool.false_eq_true, if_false, h2, normPattern]
 
@@ -253,9 +259,9 @@ theorem decodeField_has (dec : J → R NJ) (x : J) (a : String) (nj : NJ) (h : d
     decodeField dec "has" (.obj [("attr", .str a), ("left", x)]) = .ok (.ok (.strop true nj a)) := by
   simp [decodeField, onlyFields, nodeField, findField, strField, List.filter, h, bind, Except.bind]
 
-theorem decodeField_like (dec : J → R NJ) (x : J) (p : Pattern) (nj : NJ) (h : dec x = .ok nj) (hp : p.isEmpty = false) :
+theorem decodeField_like (dec : J → R NJ) (x : J) (p : Pattern) (nj : NJ) (h : dec x = .ok nj) :
     decodeField dec "like" (.obj [("left", x), ("pattern", .arr (patternToJ p))]) = .ok (.ok (.like nj (normPattern p))) := by
-  simp [decodeField, onlyFields, nodeField, findField, List.filter, h, bind, Except.bind, patternOfJ_patternToJ p hp]
+  simp [decodeField, onlyFields, nodeField, findField, List.filter, h, bind, Except.bind, patternOfJ_patternToJ p]
 
 theorem decodeField_is (dec : J → R NJ) (x : J) (ty : String) (nj : NJ) (h : dec x = .ok nj) :
     decodeField dec "is" (.obj [("entity_type", .str ty), ("left", x)]) = .ok (.ok (.is_ nj ty none)) := by
